@@ -146,3 +146,379 @@ Proof.
   exists [RSubmit 0; RState 0 JError; RSubmit 0].
   eexists. eexists. exists 0, 1. split; [reflexivity|]. vm_compute. repeat split; try lia; try discriminate.
 Qed.
+
+(* ==================================================================
+   Part 2.  One job directory
+   ================================================================== *)
+Lemma agent_eqb_eq : forall a b, agent_eqb a b = true <-> a = b.
+Proof.
+  destruct a, b; simpl; split; intros H; try discriminate; try (apply Nat.eqb_eq in H; congruence);
+  inversion H; subst; apply Nat.eqb_refl.
+Qed.
+Lemma agent_eqb_refl : forall a, agent_eqb a a = true.
+Proof. intros. apply agent_eqb_eq. reflexivity. Qed.
+
+Ltac simp :=
+  unfold set_done, set_failed, set_pidf, set_lock, set_script, set_proc, set_sched, set_ghost, new_proc in *;
+  cbn [done failed pidf lock script procs nprocs scheds body_runs body_active inflight launches succ aborts done0] in *.
+
+(* case analysis of one transition: every guard of lstep is destructed, the successor state
+   is substituted *)
+Ltac destr_step H :=
+  unfold step, lstep in H; cbv zeta in H;
+  repeat match type of H with
+  | context [procs ?st ?p] => is_var st; let E := fresh "E" in destruct (procs st p) eqn:E;
+                              cbn [alive plocked pinflight] in H; try discriminate H
+  | context [scheds ?st ?s] => is_var st; let E := fresh "E" in destruct (scheds st s) eqn:E;
+                              cbn [sover slocked] in H; try discriminate H
+  end;
+  repeat match type of H with
+  | context [match ?x with _ => _ end] =>
+      lazymatch x with
+      | context [match _ with _ => _ end] => fail
+      | _ => let E := fresh "E" in destruct x eqn:E; try discriminate H
+      end
+  end;
+  try (injection H as H); try subst.
+
+Ltac upd_cases :=
+  unfold upd in *;
+  repeat match goal with
+  | |- context [Nat.eqb ?a ?b] => destruct (Nat.eqb_spec a b); try subst
+  | H : context [Nat.eqb ?a ?b] |- _ => destruct (Nat.eqb_spec a b); try subst
+  end.
+
+Lemma release_other_proc : forall a q, a <> AProc q -> release a (Some (AProc q)) = Some (AProc q).
+Proof. intros a q H. simpl. destruct (agent_eqb a (AProc q)) eqn:E; [apply agent_eqb_eq in E; congruence|reflexivity]. Qed.
+Lemma release_other_sched : forall a q, a <> ASched q -> release a (Some (ASched q)) = Some (ASched q).
+Proof. intros a q H. simpl. destruct (agent_eqb a (ASched q)) eqn:E; [apply agent_eqb_eq in E; congruence|reflexivity]. Qed.
+
+(* I1: a job process past its Lock effect holds the lock *)
+Definition I1 (st : jobdir) := forall p, plocked (procs st p) = true -> lock st = Some (AProc p).
+(* I2: a scheduler between Lock and Unlock holds the lock *)
+Definition I2 (st : jobdir) := forall s, slocked (scheds st s) = true -> lock st = Some (ASched s).
+
+Lemma I1_step : forall st l st', I1 st -> step st l st' -> I1 st'.
+Proof.
+  intros st l st' H Hs q Hq. destruct l; destr_step Hs; simp;
+  try (apply H; assumption);
+  upd_cases; simp; try discriminate; try reflexivity;
+  try (rewrite (H _ Hq); first [reflexivity | apply release_other_proc; congruence]);
+  try (rewrite (H _ Hq) in *; discriminate);
+  try (apply H; match goal with E : procs _ _ = _ |- _ => rewrite E; reflexivity end).
+Qed.
+
+Lemma I2_step : forall st l st', I1 st -> I2 st -> step st l st' -> I2 st'.
+Proof.
+  intros st l st' H1 H Hs q Hq. destruct l; destr_step Hs; simp;
+  try (apply H; assumption);
+  upd_cases; simp; try discriminate; try reflexivity;
+  try (rewrite (H _ Hq); first [reflexivity | apply release_other_sched; congruence]);
+  try (rewrite (H _ Hq) in *; discriminate);
+  try (apply H; match goal with E : scheds _ _ = _ |- _ => rewrite E; reflexivity end).
+Qed.
+
+(* counting the processes that satisfy f with a ghost counter that never exceeds 1 *)
+Definition Cnt (f : ppc -> bool) (pr : nat -> ppc) (n : nat) : Prop :=
+  n <= 1 /\ (forall p, f (pr p) = true -> n = 1) /\ (n = 1 -> exists p, f (pr p) = true).
+
+Lemma Cnt_move : forall f pr n p c', Cnt f pr n -> f c' = f (pr p) -> Cnt f (upd pr p c') n.
+Proof.
+  intros f pr n p c' (A & B & C) Hf. split; [assumption|split].
+  - intros q Hq. unfold upd in Hq. destruct (Nat.eqb_spec q p); [subst; rewrite Hf in Hq|]; eauto.
+  - intros Hn. destruct (C Hn) as [w Hw]. exists w. unfold upd. destruct (Nat.eqb_spec w p); [subst; congruence|assumption].
+Qed.
+Lemma Cnt_enter : forall f pr n p c', Cnt f pr n -> (forall q, f (pr q) = true -> q = p) ->
+  f (pr p) = false -> f c' = true -> Cnt f (upd pr p c') (S n).
+Proof.
+  intros f pr n p c' (A & B & C) U Hp Hc.
+  assert (n = 0). { destruct n as [|[|n]]; [reflexivity| |lia]. destruct (C eq_refl) as [w Hw]. rewrite (U w Hw) in Hw. congruence. }
+  subst n. split; [lia|split].
+  - reflexivity.
+  - intros _. exists p. rewrite upd_same. assumption.
+Qed.
+Lemma Cnt_leave : forall f pr n p c', Cnt f pr n -> (forall q, f (pr q) = true -> q = p) ->
+  f (pr p) = true -> f c' = false -> Cnt f (upd pr p c') (pred n).
+Proof.
+  intros f pr n p c' (A & B & C) U Hp Hc. rewrite (B p Hp). simpl. split; [lia|split].
+  - intros q Hq. unfold upd in Hq. destruct (Nat.eqb_spec q p); [congruence|]. specialize (U q Hq). congruence.
+  - discriminate.
+Qed.
+
+Definition pbody (c : ppc) : bool := match c with PBody => true | _ => false end.
+Lemma pbody_locked : forall c, pbody c = true -> plocked c = true.
+Proof. destruct c; simpl; congruence. Qed.
+Lemma pinflight_locked : forall c, pinflight c = true -> plocked c = true.
+Proof. destruct c; simpl; congruence. Qed.
+Lemma prun_locked : forall c, prun c = true -> plocked c = true.
+Proof. destruct c; simpl; congruence. Qed.
+
+Lemma uniq_locked : forall st p, I1 st -> plocked (procs st p) = true ->
+  forall q, plocked (procs st q) = true -> q = p.
+Proof. intros st p H Hp q Hq. pose proof (H p Hp). pose proof (H q Hq). congruence. Qed.
+
+(* I7: process numbers not yet handed out are unused; I14: those handed out are used *)
+Definition I7 (st : jobdir) := forall p, nprocs st <= p -> procs st p = PNone.
+Definition I14 (st : jobdir) := forall p, p < nprocs st -> procs st p <> PNone.
+Lemma I7_step : forall st l st', I7 st -> step st l st' -> I7 st'.
+Proof.
+  intros st l st' H Hs q Hq. destruct l; destr_step Hs; simp; try (apply H; assumption);
+  upd_cases; try (apply H; lia); try lia;
+  try (match goal with E : procs _ ?p = _ |- _ => rewrite (H p Hq) in E; discriminate end).
+Qed.
+Lemma I14_step : forall st l st', I14 st -> step st l st' -> I14 st'.
+Proof.
+  intros st l st' H Hs q Hq. destruct l; destr_step Hs; simp; try (apply H; assumption);
+  upd_cases; try discriminate; try (apply H; lia); try (destruct (script st); discriminate).
+Qed.
+
+(* I3: the ghost counters agree with the program counters *)
+Definition I3 (st : jobdir) := Cnt pinflight (procs st) (inflight st) /\ Cnt pbody (procs st) (body_active st).
+
+Ltac cnt_side st H1 :=
+  first [ assumption
+        | reflexivity
+        | match goal with E : procs _ _ = _ |- _ => rewrite E; reflexivity end
+        | intros ? ?; eapply (uniq_locked st); [exact H1 | match goal with E : procs _ _ = _ |- _ => rewrite E; reflexivity end
+                                                | first [apply pinflight_locked; assumption | apply pbody_locked; assumption] ] ].
+
+Ltac cnt_tac st H1 H7 :=
+  first [ assumption
+        | apply Cnt_move; [assumption | first [ match goal with E : procs _ _ = _ |- _ => rewrite E; reflexivity end
+                                              | rewrite (H7 _ (le_n _)); reflexivity
+                                              | match goal with E : procs _ _ = _ |- _ => rewrite E; destruct (script st); reflexivity end ] ]
+        | apply Cnt_enter; cnt_side st H1
+        | apply Cnt_leave; cnt_side st H1 ].
+
+Lemma I3_step : forall st l st', I1 st -> I7 st -> I3 st -> step st l st' -> I3 st'.
+Proof.
+  intros st l st' H1 H7 [Ha Hb] Hs. destruct l; destr_step Hs; unfold I3; simp;
+  (split; [cnt_tac st H1 H7 | cnt_tac st H1 H7]).
+Qed.
+
+(* markers only ever appear; failures only accumulate *)
+Lemma done_mono : forall st l st', step st l st' -> done st = true -> done st' = true.
+Proof. intros st l st' Hs Hd. destruct l; destr_step Hs; simp; congruence. Qed.
+Lemma aborts_mono : forall st l st', step st l st' -> aborts st <= aborts st'.
+Proof. intros st l st' Hs. destruct l; destr_step Hs; simp; lia. Qed.
+Lemma done0_const : forall st l st', step st l st' -> done0 st' = done0 st.
+Proof. intros st l st' Hs. destruct l; destr_step Hs; simp; reflexivity. Qed.
+
+(* I4: once the marker exists no process is between its (negative) test and the end of
+   its body *)
+Definition I4 (st : jobdir) := done st = true -> forall p, prun (procs st p) = false.
+Lemma I4_step : forall st l st', I1 st -> I4 st -> step st l st' -> I4 st'.
+Proof.
+  intros st l st' H1 H Hs Hd q. destruct l; destr_step Hs; simp;
+  try (apply H; assumption);
+  upd_cases; simp; try reflexivity; try (apply H; assumption); try congruence;
+  try (match goal with E : procs _ ?p = _ |- _ => specialize (H Hd p); rewrite E in H; discriminate H end);
+  try (destruct (script st); reflexivity).
+  (* TouchDone by p: any q in its run section would hold the lock that p holds *)
+  all: destruct (prun (procs st q)) eqn:Eq; [|reflexivity]; exfalso;
+    apply prun_locked in Eq; apply n; eapply (uniq_locked st); eauto; rewrite E; reflexivity.
+Qed.
+
+(* I5: every body run is accounted for *)
+Definition I5 (st : jobdir) :=
+  body_runs st <= succ st + aborts st + inflight st /\ succ st + inflight st <= body_runs st.
+Lemma I5_step : forall st l st', I3 st -> I5 st -> step st l st' -> I5 st'.
+Proof.
+  intros st l st' [[A1 [A2 A3]] [B1 [B2 B3]]] (H1 & H2) Hs. unfold I5.
+  destruct l; destr_step Hs; simp; try (repeat split; lia);
+  try (assert (inflight st = 1) by (apply (A2 p); rewrite E; reflexivity));
+  try (assert (body_active st = 1) by (apply (B2 p); rewrite E; reflexivity));
+  repeat split; lia.
+Qed.
+
+(* I6: the marker and the count of TouchDone effects *)
+Definition I6 (st : jobdir) :=
+  succ st <= (if done st then 1 else 0) /\ (done st = true -> done0 st = true \/ succ st = 1) /\
+  (done0 st = true -> done st = true).
+Lemma I6_step : forall st l st', I4 st -> I6 st -> step st l st' -> I6 st'.
+Proof.
+  intros st l st' H4 (A & B & C) Hs. unfold I6.
+  destruct l; destr_step Hs; simp; try (repeat split; assumption);
+  try (match goal with E0 : done st = _ |- _ => rewrite E0 end; repeat split; assumption).
+  all: assert (Hd : done st = false) by
+    (destruct (done st) eqn:Hd; [specialize (H4 Hd p); rewrite E in H4; discriminate|reflexivity]);
+    rewrite Hd in A; repeat split; auto; try lia; intros _; right; lia.
+Qed.
+
+(* I8: a process that left by the "already completed" or the success path implies the marker *)
+Definition pokc (c : ppc) : bool := match c with PRmPid XOk | PUnlock XOk | PExit XOk => true | _ => false end.
+Definition I8 (st : jobdir) := forall p, pokc (procs st p) = true -> done st = true.
+Lemma I8_step : forall st l st', I8 st -> step st l st' -> I8 st'.
+Proof.
+  intros st l st' H Hs q Hq. destruct l; destr_step Hs; simp;
+  try (eapply H; eassumption);
+  upd_cases; simp; try discriminate; try reflexivity; try (eapply H; eassumption); try assumption;
+  try (apply (H p); rewrite E; assumption);
+  try (destruct (script st); discriminate).
+Qed.
+
+(* I9: a positive first test implies the marker *)
+Definition sdflag (c : spc) : bool := match c with SPid true | STest2 _ true => true | _ => false end.
+Definition I9 (st : jobdir) := forall s, sdflag (scheds st s) = true -> done st = true.
+Lemma I9_step : forall st l st', I9 st -> step st l st' -> I9 st'.
+Proof.
+  intros st l st' H Hs q Hq. destruct l; destr_step Hs; simp;
+  try (eapply H; eassumption);
+  upd_cases; simp; try discriminate; try reflexivity; try (eapply H; eassumption);
+  try (apply (H s); rewrite E; assumption);
+  try (destruct (done st); [reflexivity|discriminate]).
+Qed.
+
+(* I11: a process on the failure path was counted *)
+Definition I11 (st : jobdir) := forall p, pfailing (procs st p) = true -> 1 <= aborts st.
+Lemma I11_step : forall st l st', I11 st -> step st l st' -> I11 st'.
+Proof.
+  intros st l st' H Hs q Hq. destruct l; destr_step Hs; simp;
+  try (eapply H; eassumption);
+  upd_cases; simp; try discriminate; try lia; try (eapply H; eassumption);
+  try (specialize (H q Hq); lia);
+  try (apply (H p); rewrite E; assumption);
+  try (destruct (script st); discriminate);
+  try (destruct (done st); discriminate).
+Qed.
+
+(* I12, I13: the pid file and the schedulers only name processes that were created *)
+Definition I12 (st : jobdir) := forall p, pidf st = Some p -> p < nprocs st.
+Definition I13 (st : jobdir) := forall s p, schild (scheds st s) = Some p -> p < nprocs st.
+Lemma I13_step : forall st l st', I12 st -> I13 st -> step st l st' -> I13 st'.
+Proof.
+  intros st l st' H12 H Hs q x Hq. destruct l; destr_step Hs; simp;
+  try (eapply H; eassumption);
+  upd_cases; simp; try discriminate; try (eapply H; eassumption);
+  try (inversion Hq; subst; first [apply H12; assumption | apply (H s); rewrite E; reflexivity | lia]);
+  try (specialize (H _ _ Hq); lia).
+Qed.
+Lemma I12_step : forall st l st', I12 st -> I13 st -> step st l st' -> I12 st'.
+Proof.
+  intros st l st' H H13 Hs q Hq. destruct l; destr_step Hs; simp;
+  try (apply H; assumption); try discriminate;
+  try (specialize (H _ Hq); lia).
+  inversion Hq; subst. apply (H13 s). rewrite E. reflexivity.
+Qed.
+
+(* ------------------------------------------------------------------ the invariant *)
+Definition Inv (st : jobdir) : Prop :=
+  I1 st /\ I2 st /\ I3 st /\ I4 st /\ I5 st /\ I6 st /\ I7 st /\ I8 st /\ I9 st /\ I11 st /\
+  I12 st /\ I13 st /\ I14 st.
+
+Lemma Inv_initial : forall st, initial st -> Inv st.
+Proof.
+  intros st (Hp & Hn & Hs & Hl & Hr & Ha & Hi & Hla & Hsu & Hab & Hd0 & Hpid).
+  unfold Inv, I1, I2, I3, I4, I5, I6, I7, I8, I9, I11, I12, I13, I14, Cnt.
+  repeat split; intros; rewrite ?Hp, ?Hs in *; simpl in *; try discriminate; try lia; try congruence.
+Qed.
+
+Lemma Inv_step : forall st l st', Inv st -> step st l st' -> Inv st'.
+Proof.
+  intros st l st' (H1 & H2 & H3 & H4 & H5 & H6 & H7 & H8 & H9 & H11 & H12 & H13 & H14) Hs.
+  unfold Inv. repeat split.
+  - eapply I1_step; eauto.
+  - eapply I2_step; eauto.
+  - eapply I3_step; eauto.
+  - eapply I3_step; eauto.
+  - eapply I4_step; eauto.
+  - eapply I5_step; eauto.
+  - eapply I5_step; eauto.
+  - eapply I6_step; eauto.
+  - eapply I6_step; eauto.
+  - eapply I6_step; eauto.
+  - eapply I7_step; eauto.
+  - eapply I8_step; eauto.
+  - eapply I9_step; eauto.
+  - eapply I11_step; eauto.
+  - eapply I12_step; eauto.
+  - eapply I13_step; eauto.
+  - eapply I14_step; eauto.
+Qed.
+
+Lemma Inv_steps : forall st tr st', steps st tr st' -> Inv st -> Inv st'.
+Proof. induction 1; intros; eauto using Inv_step. Qed.
+Lemma Inv_reachable : forall st, reachable st -> Inv st.
+Proof. intros st (st0 & tr & Hi & Hs). eapply Inv_steps; eauto using Inv_initial. Qed.
+
+Lemma steps_app : forall st tr1 st1 tr2 st2, steps st tr1 st1 -> steps st1 tr2 st2 -> steps st (tr1 ++ tr2) st2.
+Proof. induction 1; intros; simpl; [assumption|econstructor; eauto]. Qed.
+Lemma reachable_steps : forall st tr st', reachable st -> steps st tr st' -> reachable st'.
+Proof. intros st tr st' (st0 & tr0 & Hi & Hs) H. exists st0, (tr0 ++ tr). split; [assumption|eapply steps_app; eauto]. Qed.
+Lemma run_labels_steps : forall tr st st', run_labels tr st = Some st' -> steps st tr st'.
+Proof.
+  induction tr as [|l tr IH]; simpl; intros st st' H.
+  - inversion H; subst. constructor.
+  - destruct (lstep l st) as [st1|] eqn:E; [|discriminate]. econstructor; [exact E|eauto].
+Qed.
+
+(* ---------------------------------------------------------------- C05 theorems *)
+
+(* body_mutex: in every reachable state of N schedulers (crashes, restarts, kills included)
+   at most one process is inside the body of the job *)
+Lemma body_mutex : forall st, reachable st ->
+  body_active st <= 1 /\ (forall p q, procs st p = PBody -> procs st q = PBody -> p = q).
+Proof.
+  intros st Hr. destruct (Inv_reachable _ Hr) as (H1 & _ & [_ [B1 _]] & _). split; [assumption|].
+  intros p q Hp Hq. eapply (uniq_locked st); eauto; [rewrite Hq|rewrite Hp]; reflexivity.
+Qed.
+
+(* no_rerun_after_success: once the marker exists, no BodyBegin effect occurs any more *)
+Lemma no_begin_when_done : forall st p st', Inv st -> done st = true -> step st (LBegin p) st' -> False.
+Proof.
+  intros st p st' (_ & _ & _ & H4 & _) Hd Hs. destr_step Hs. specialize (H4 Hd p). rewrite E in H4. discriminate.
+Qed.
+Lemma body_runs_only_begin : forall st l st', step st l st' ->
+  (forall p, l <> LBegin p) -> body_runs st' = body_runs st.
+Proof. intros st l st' Hs Hl. destruct l; destr_step Hs; simp; try reflexivity. exfalso. eapply Hl; reflexivity. Qed.
+
+Lemma no_rerun_after_success : forall st tr st', reachable st -> done st = true -> steps st tr st' ->
+  (forall p, ~ In (LBegin p) tr) /\ body_runs st' = body_runs st.
+Proof.
+  intros st tr st' Hr Hd Hs. apply Inv_reachable in Hr. induction Hs as [st|st l st1 tr st' H1 Hs IH].
+  - split; [intros p []|reflexivity].
+  - assert (Hl : forall p, l <> LBegin p).
+    { intros p ->. eapply no_begin_when_done; eauto. }
+    destruct (IH (Inv_step _ _ _ Hr H1) (done_mono _ _ _ H1 Hd)) as [IH1 IH2]. split.
+    + intros p [Hp|Hp]; [eapply Hl; eauto|eapply IH1; eauto].
+    + rewrite IH2. eapply body_runs_only_begin; eauto.
+Qed.
+
+(* done_never_launched: if the marker exists when the schedulers (any number of them, any
+   number of later attempts) have not yet decided to start the job, no process is ever
+   launched for it.  No reachability hypothesis: arbitrary prior contents, arbitrary
+   processes.                                                                          *)
+Definition snolaunch (c : spc) : bool :=
+  match c with SIdle | STest1 | SPid _ | SAdopt _ | STest2 _ _ | SFinal _ | SDead => true | _ => false end.
+Lemma sover_nolaunch : forall c, sover c = true -> snolaunch c = true.
+Proof. destruct c; simpl; congruence. Qed.
+
+Lemma nolaunch_step : forall st l st', done st = true -> (forall s, snolaunch (scheds st s) = true) ->
+  step st l st' -> (forall s, snolaunch (scheds st' s) = true) /\ launches st' = launches st.
+Proof.
+  intros st l st' Hd Hn Hs.
+  destruct l; destr_step Hs; simp;
+  try (split; [assumption|reflexivity]);
+  try (match goal with E : scheds st ?s = _ |- _ => specialize (Hn s); rewrite E in Hn; discriminate Hn end);
+  try (split; [intros q; upd_cases; [reflexivity|apply Hn]|reflexivity]);
+  try congruence.
+Qed.
+
+Lemma done_never_launched : forall st tr st', done st = true ->
+  (forall s, snolaunch (scheds st s) = true) -> steps st tr st' ->
+  launches st' = launches st /\ (forall s, ~ In (LSpawn s) tr).
+Proof.
+  intros st tr st' Hd Hn Hs. induction Hs as [st|st l st1 tr st' H1 Hs IH].
+  - split; [reflexivity|intros s []].
+  - destruct (nolaunch_step _ _ _ Hd Hn H1) as [Hn1 Hl1].
+    destruct (IH (done_mono _ _ _ H1 Hd) Hn1) as [IH1 IH2]. split; [congruence|].
+    intros s [Hin|Hin]; [|eapply IH2; eauto]. subst l. destr_step H1.
+    specialize (Hn s). rewrite E in Hn. discriminate.
+Qed.
+
+(* the form named in the property: any later experiment, i.e. all instances start afresh *)
+Lemma done_never_launched_later : forall st tr st', done st = true ->
+  (forall s, sover (scheds st s) = true) -> steps st tr st' -> launches st' = launches st.
+Proof.
+  intros st tr st' Hd Ho Hs. eapply done_never_launched; eauto. intros s. apply sover_nolaunch, Ho.
+Qed.
